@@ -96,13 +96,18 @@ def rtl_case(item, ctx=None):
     if msgs:
       break
   # full build: output labels + monotone function on a small grid (first seed only)
-  if not msgs and tot <= 5 and (item["avoid"] or tot <= 3):
+  # for both parameterizations of the sub-lattices
+  for par in ("all_vertices", "kronecker_factored"):
+    if msgs or not (tot <= 5 and (item["avoid"] or tot <= 3)):
+      break
     seed = item["seeds"][0]
     tf.random.set_seed(seed)
     np.random.seed(seed)
     layer = tfl.layers.RTL(num_lattices=item["nl"], lattice_rank=item["rank"], lattice_size=2,
                            random_seed=seed, avoid_intragroup_interaction=item["avoid"],
-                           separate_outputs=True, kernel_initializer="random_monotonic_initializer")
+                           separate_outputs=True, parameterization=par,
+                           kernel_initializer=("random_monotonic_initializer" if par == "all_vertices"
+                                               else "kfl_random_monotonic_initializer"))
     pts = list(itertools.product([0.0, 0.5, 1.0], repeat=tot)) if tot <= 4 else list(
         itertools.product([0.0, 1.0], repeat=tot))
     X = np.array(pts, dtype=np.float32)
@@ -132,7 +137,12 @@ def rtl_case(item, ctx=None):
     for sub in layer._lattice_layers.values():
       k = sub.kernel.numpy()
       k = k + 0.7 * np.sin(np.arange(k.size).reshape(k.shape) * 1.3)
-      sub.kernel.assign(sub.kernel.constraint(tf.constant(k.astype(np.float32))))
+      if par == "kronecker_factored":
+        sub.scale.assign(sub.scale.numpy() * np.where(np.arange(sub.scale.shape[-1]) % 2, -1.5, 0.5).astype(np.float32))
+      sub.kernel.assign(tf.constant(k.astype(np.float32)))
+      if sub.kernel.constraint is not None:
+        sub.kernel.assign(sub.kernel.constraint(sub.kernel))
+      sub.finalize_constraints()
     out = layer(feed(X))
     allout = np.concatenate([np.asarray(out[k]) for k in sorted(out)], axis=1)
     lut = {tuple(p): r for r, p in enumerate(pts)}
